@@ -111,6 +111,19 @@ func registerHarness(e *Engine) {
 		c.St.Assume(intCmp("<=", StrLenInt(v), BVToInt(mx)))
 		return c.Return(v)
 	}
+	// vfBlob(tag, maxLen): bytes of symbolic length <= maxLen whose content is left arbitrary;
+	// only the length is read from the model (solvers do not return 64 KiB string models in
+	// reasonable time) and the native replay fills it with 'a'. For harnesses whose labels
+	// depend on the length only.
+	e.Intr["harness.vfBlob"] = func(c *Call) []*State {
+		tag := c.constStr(0)
+		mx := c.argTerm(1)
+		v := FreshVar(tag, SString, 0)
+		MarkBlob(v.S)
+		c.St.Nondets = append(c.St.Nondets, NondetRec{Src: "h", Tag: tag, Kind: "bloblen", Term: StrLenInt(v)})
+		c.St.Assume(intCmp("<=", StrLenInt(v), BVToInt(mx)))
+		return c.Return(v)
+	}
 	// vfStringN(tag, n): string of exactly n bytes
 	e.Intr["harness.vfStringN"] = func(c *Call) []*State {
 		tag := c.constStr(0)
